@@ -32,7 +32,7 @@ def mk_pw(st, x, connected=True):
                                     "_shutdown_requested": VBool(fresh("shutdown", z3.BoolSort())), "_logger": NONE, "_timeout": num(30.0)})
     def ev_m(name):
         def h(x_, recv, args, kwargs, st_):
-            st_.log.append((T, ("event." + name, recv.oid))); return VBool(T)
+            st_.log.append((T, ("event." + name, recv.oid, len(args) + len(kwargs)))); return VBool(fresh("event_result", z3.BoolSort()))
         return h
     for m in ("clear", "wait", "set"): x.contracts[("Event", m)] = ev_m(m)
     def dev_m(name, havoc=False):
@@ -62,7 +62,8 @@ def u_pw_write(ctx):
     for e in exits:
         evs = [ev for g, ev in e.log]
         ctx.check(f"protocol of one write: clear the acknowledgement flag, hand the stripped statement to the sender ONCE, then wait for the acknowledgement [{e.kind}]",
-                  AND(z3.BoolVal([ev[0] for ev in evs] == ["event.clear", "device.send", "event.wait"] and evs[0][1] == ack.oid and evs[2][1] == ack.oid),
+                  AND(z3.BoolVal([ev[0] for ev in evs] == ["event.clear", "device.send", "event.wait"] and evs[0][1] == ack.oid and evs[2][1] == ack.oid
+                                 and evs[2][2] == 0),        # wait() without a timeout: write() cannot return before the acknowledgement
                       (evs[1][1][0].z() == strip(stmt.z())) if (len(evs) == 3 and evs[1][0] == "device.send") else F), e, None, "post")
         if e.kind == "raise":
             ctx.check("a device error stored by the reply handler is raised to the caller and cleared", as_opt(e.heap[w.oid]["_device_error"]).none, e, None, "post")
